@@ -526,6 +526,9 @@ static bool container_mirror(const Call &c, CV &res, int &out)
     } else if (f == "mapbasicbasic_size") {
         res = RU(MM(0).size());
         out = -1;
+    } else if (f == "basic_dumps") {
+        res = RU(MB(0)->dumps().length());
+        out = -1;
     } else if (f == "basic_parse2") {
         res = RB(ML(2) > 0 ? parse(MT(1)) : parse(MT(1), false));
         out = 0;
@@ -705,6 +708,16 @@ static bool c_call(const Call &c, COut &o)
         o = uint_out(integer_get_ui(CB(c, 0)));
     } else if (f == "basic_hash") {
         o = uint_out(basic_hash(CB(c, 0)));
+    } else if (f == "basic_dumps") {
+        unsigned long n = 0;
+        char *d = basic_dumps(CB(c, 0), &n);
+        if (d == nullptr) {
+            o.k = 'S';
+            o.null = true;
+        } else {
+            o = uint_out(n);
+            basic_str_free(d);
+        }
     } else if (f == "basic_set_interval") {
         o = rc_out(basic_set_interval(CB(c, 0), CB(c, 1), CB(c, 2), (int)L(3), (int)L(4)));
     } else if (f == "basic_set_finiteset") {
